@@ -70,6 +70,8 @@ impl<T: TokenStream> ParserBase<T> {
 
     #[inline]
     pub(crate) fn start_node(&mut self, kind: SyntaxKind) {
+        #[cfg(feature = "verif")]
+        crate::verif_hooks::bump();
         self.builder.start_node(kind.into());
     }
 
@@ -90,6 +92,8 @@ impl<T: TokenStream> ParserBase<T> {
 
     #[inline]
     pub(crate) fn peek(&self) -> TokenKind {
+        #[cfg(feature = "verif")]
+        crate::verif_hooks::bump();
         self.current
     }
 
@@ -185,6 +189,8 @@ impl<T: TokenStream> ParserBase<T> {
     }
 
     pub fn lex(&mut self) {
+        #[cfg(feature = "verif")]
+        crate::verif_hooks::bump();
         let start = self.token_stream.cursor();
         self.current = self.token_stream.eat();
         let end = self.token_stream.cursor();
